@@ -31,6 +31,13 @@ func c03(r *sim.R) *sim.Violation {
 	for i := 0; i < nSess; i++ {
 		s := rawSession{iface: "eth0", dirTS: dirTS, enc: sim.Pick(r.T, encPool)}
 		nb := 1 + r.T.Draw(3)
+		// one session in three is a flow-level write-out through the real DBWriter (the way the
+		// capture writes; the day directory is chosen from the block timestamp)
+		var wo *writeout
+		if r.T.Draw(3) == 0 {
+			nb = 1
+			wo = &writeout{iface: "eth0", enc: s.enc, level: r.T.Draw(3)}
+		}
 		var kinds []string
 		for j := 0; j < nb; j++ {
 			ts := last + 300
@@ -60,6 +67,29 @@ func c03(r *sim.R) *sim.Violation {
 					ts, kind = -int64(1+r.T.Draw(100000)), "negative first timestamp"
 				}
 			}
+			if wo != nil {
+				wo.ts = ts
+				wo.flows = model.GenFlows(r.T, 6, true)
+				kind = "write-out through DBWriter, " + kind
+				switch r.T.Draw(8) {
+				case 1:
+					wo.drops, kind = 1<<32-1, kind+", drop count 2^32-1"
+				case 2:
+					wo.drops, kind = 1<<32+uint64(r.T.Draw(5)), kind+", drop count beyond 2^32-1"
+				case 3:
+					wo.drops = uint64(r.T.Draw(1000))
+				}
+				kinds = append(kinds, kind)
+				if !strings.Contains(kind, "equal") && !strings.Contains(kind, "earlier") {
+					if ts > last || last == 0 {
+						last = ts
+					}
+				}
+				if first == 0 {
+					first = ts
+				}
+				continue
+			}
 			b, _ := genRawBlock(r.T, ts, false)
 			switch r.T.Draw(10) {
 			case 1:
@@ -84,34 +114,51 @@ func c03(r *sim.R) *sim.Violation {
 				first = ts
 			}
 		}
-		r.Event("%d: %s", i, s)
 		wd.fs.Restart("w")
 		var err error
-		if p := simfs.RunProc(func() { _, err = s.exec() }); p != nil {
-			panic(p)
+		what := s.String()
+		day := model.DayOf(s.dirTS)
+		if wo != nil {
+			what, day = wo.String(), model.DayOf(wo.ts)
+			r.Event("%d: %s", i, what)
+			if p := simfs.RunProc(func() { err = wo.exec() }); p != nil {
+				panic(p)
+			}
+		} else {
+			r.Event("%d: %s", i, s)
+			if p := simfs.RunProc(func() { _, err = s.exec() }); p != nil {
+				panic(p)
+			}
 		}
 		sig := strings.Join(dedup(kinds), " | ")
 		want := m
 		if err == nil {
 			want = m.Clone()
+			if wo != nil {
+				want.Add(wo.iface, wo.block())
+				r.Probe("writeout_accepted")
+			}
 			for _, b := range s.blocks {
 				want.AddTo(s.iface, model.DayOf(s.dirTS), b)
 			}
 			r.Probe("session_accepted")
 		} else {
 			r.Probe("session_rejected")
+			if wo != nil {
+				r.Probe("writeout_rejected")
+			}
 		}
 		wd.fs.Restart("r")
-		wd.EmptyDayOK = ""
 		if err != nil {
-			wd.EmptyDayOK = fmt.Sprintf("%s/%d", s.iface, model.DayOf(s.dirTS))
+			// the directory of a day whose first session was rejected stays (without metadata)
+			wd.EmptyDayOK += fmt.Sprintf(";%s/%d;", s.iface, day)
 		}
 		if _, cl, det := wd.CheckStore(want, nil, ""); cl != "" {
 			clause := "accepted-but-stored-altered"
 			if err != nil {
 				clause = "rejected-but-changed-the-day"
 			}
-			if v := r.Report(&sim.Violation{Clause: clause, Signature: sig, Detail: fmt.Sprintf("%s\nsession returned: %v\nreopened day (%s): %s", s, err, cl, det)}); v != nil {
+			if v := r.Report(&sim.Violation{Clause: clause, Signature: sig, Detail: fmt.Sprintf("%s\nsession returned: %v\nreopened day (%s): %s", what, err, cl, det)}); v != nil {
 				return v
 			}
 			return nil // disk and model disagree from here on (known finding)
